@@ -1,11 +1,14 @@
 import GmQuic.Drv.Core
 import GmQuic.Model.PacketDec
+import GmQuic.Model.FrameRd
+import GmQuic.Model.ParamsDec
+import GmQuic.Drv.C05
 /-!
 Line driver for C03 (`C03pkt`, `C03mux`, `C03x`): outcome-class comparison, exact.
 Rendering = the one of `harness/src/c03.rs`.
 -/
 namespace GmQuic.Drv.C03
-open GmQuic.Drv GmQuic.Wire GmQuic.Codec GmQuic.PacketDec
+open GmQuic.Drv GmQuic.Wire GmQuic.Codec GmQuic.PacketDec GmQuic.FrameRd GmQuic.ParamsDec GmQuic.Gen.C03
 
 def tyName : PTy → String
   | .long .vn => "vn" | .long .initial => "initial" | .long .zeroRtt => "0rtt"
@@ -57,9 +60,34 @@ def showEp : Endpoint → String
 def muxObs (bs : Bytes) : String :=
   match demux bs with
   | .quic _ => "quic"
-  | .stun v body => s!"stun v={v} body={body.length}"
+  | .stun v body =>
+    let m := match stunMsg body with | .ok .. => "ok" | .err _ => "err" | .panic _ => "PANIC"
+    s!"stun v={v} body={body.length} msg={m}"
   | .forward src dst hdr inner => s!"fwd src={showEp src} dst={showEp dst} hdr={hdr} strip={bs.length - inner.length}"
   | .panic _ => "PANIC"
+
+/-- the `read_plain_packet` loop, rendered item by item -/
+def framesObs (pt : PktType) : Nat → Bytes → List String → List String
+  | 0, _, acc => ("HANG" :: acc).reverse
+  | fuel + 1, bs, acc =>
+    match FrameReader.next pt bs with
+    | .eof => ("end" :: acc).reverse
+    | .frame f rest => framesObs pt fuel rest (s!"ok used={bs.length - rest.length} {GmQuic.Drv.C05.showFrame f}" :: acc)
+    | .err k =>
+      let kind := match ferrOf k with | some e => frameErrKind e | none => "?"
+      (s!"{GmQuic.Drv.C05.showDec 0 (.err k)} kind={kind}" :: acc).reverse
+    | .panic _ => ["PANIC"]
+
+def tpObs (r : TRes GmQuic.Params.PMap) (c18 : Option Bool) : String :=
+  let mine := match r with
+    | .ok _ => "ok"
+    | .err w => s!"err {errKind w}"
+    | .panic _ => "PANIC"
+  -- cross-check with C18's abstract parse model (same code, modelled independently)
+  match r, c18 with
+  | .ok _, some false => "MODELS-DISAGREE c18=err c03=ok"
+  | .err _, some true => "MODELS-DISAGREE c18=ok c03=err"
+  | _, _ => mine
 
 def stepC03 (_ : Unit) (op : List String) : Unit × String :=
   match op with
@@ -71,6 +99,31 @@ def stepC03 (_ : Unit) (op : List String) : Unit × String :=
     match d.toNat?, parseHex h with
     | some d, some bs => ((), allObs d bs)
     | _, _ => ((), "BAD all")
+  | ["frames", pt, h] =>
+    match GmQuic.Drv.C05.parsePt pt, parseHex h with
+    | some pt, some bs =>
+      let items := framesObs pt (bs.length + 1) bs []
+      -- the obs of the whole loop must also be what `readPlain` says (the theorems are about `readPlain`)
+      let agree := match readPlain pt bs, items.getLast? with
+        | .ok fs, some "end" => fs.length + 1 == items.length
+        | .err fs _, some l => l.startsWith "err" && fs.length + 1 == items.length
+        | _, _ => false
+      ((), if agree || (bs.isEmpty && readPlainRejectsEmpty) then " | ".intercalate items else "MODEL-INCONSISTENT")
+    | _, _ => ((), "BAD frames")
+  | ["emptypayload"] =>
+    ((), match readPlain .oneRtt [] with | .ok [] => "accepted" | _ => "rejected")
+  | ["tpc", h] =>
+    match parseHex h with
+    | some bs => ((), tpObs (parseFromBytes .client bs) (some (GmQuic.Params.parse .client bs).isSome))
+    | none => ((), "BAD tp")
+  | ["tps", h] =>
+    match parseHex h with
+    | some bs => ((), tpObs (parseFromBytes .server bs) (some (GmQuic.Params.parse .server bs).isSome))
+    | none => ((), "BAD tp")
+  | ["tpr", h] =>
+    match parseHex h with
+    | some bs => ((), tpObs (rememberedFromBytes bs) none)
+    | none => ((), "BAD tp")
   | ["mux", h] =>
     match parseHex h with
     | some bs => ((), muxObs bs)
@@ -79,7 +132,22 @@ def stepC03 (_ : Unit) (op : List String) : Unit × String :=
 
 def model : Model Unit := { init := (), step := exact stepC03 }
 
+/-- monitor-only run (`C03misc`: decoders that are not modelled): the driver only checks the shape of the
+observation (`ok used=n` with `n ≤ len` | `err`); PANIC is a disagreement. -/
+def stepMisc (_ : Unit) (op obs : List String) : Unit × Option String :=
+  match op, obs with
+  | ["misc", _, _], ["err"] => ((), none)
+  | ["misc", _, h], ["ok", u] =>
+    match parseHex h, (u.splitOn "=").getLast?.bind String.toNat? with
+    | some bs, some n => ((), if n ≤ bs.length then none else some "consumed more than the input")
+    | _, _ => ((), some "BAD misc obs")
+  | ["misc", _, _], _ => ((), some "decoder must answer ok | err")
+  | _, _ => ((), some "BAD op")
+
+def miscModel : Model Unit := { init := (), step := stepMisc }
+
 def entries : List (String × IO UInt32) :=
-  [("C03pkt", runModel model), ("C03mux", runModel model), ("C03x", runModel model)]
+  [("C03pkt", runModel model), ("C03mux", runModel model), ("C03frm", runModel model), ("C03par", runModel model),
+   ("C03x", runModel model), ("C03misc", runModel miscModel)]
 
 end GmQuic.Drv.C03
